@@ -349,11 +349,18 @@ func Find(logger logger.Logger, start, stop string) (string, error) {
 					return "", fmt.Errorf("could not resolve '%s': %w", e.Name(), err)
 				}
 				return abs, nil
-			} else if start == stop {
-				return "", errors.New("No spokfile found")
 			}
 		}
-		start = filepath.Dir(start)
+
+		// Nothing in this directory. Give up if it was the last one we should look in
+		// or if we have reached the root of the filesystem and there is nowhere left to go.
+		// (This check must not sit inside the loop over the entries: an empty directory
+		// would never reach it and any entry sorting before the spokfile would end the search early)
+		parent := filepath.Dir(start)
+		if start == stop || parent == start {
+			return "", errors.New("No spokfile found")
+		}
+		start = parent
 	}
 }
 
